@@ -21,7 +21,7 @@ for d in sorted(glob.glob('/verif/seeded/*/')):
     if os.path.exists(bp):
         b = json.load(open(bp)).get(m['property'], {})
         blind = 'caught' if b.get('violations', 0) > 0 else ('inconclusive' if b.get('exit') == 2 else ('missed' if b.get('exit') == 0 else ''))
-    rows.append((os.path.basename(d.rstrip('/')), m['property'], m['summary'], m['needs'], ', '.join(caught) or '-', ', '.join(missed) or '-', ', '.join(inc) or '-', first, (('blind: ' + blind + '. ') if blind else '') + m.get('strengthened', '')))
+    rows.append((os.path.basename(d.rstrip('/')), m['property'], m['summary'], m['needs'], ', '.join(caught) or '-', ', '.join(missed) or '-', ', '.join(inc) or '-', first, (('blind: ' + blind + '. ') if blind and not m.get('strengthened', '').startswith('blind') else '') + m.get('strengthened', '')))
 out = ['# Seeded changes and the checks that catch them', '',
        'Each change was produced by an independent sub-agent (property text + scratch worktree only), confirmed by us with `tools/confirm_seeded.sh`',
        '(suite passes with the change; demonstration fails with it and passes without), and evaluated with `tools/eval_seeded.py` (quick tier unless noted).', '',
